@@ -1,5 +1,6 @@
 import EbisimProofs.Lemmas.Consts
 import EbisimProofs.Props.C13
+import EbisimProofs.Lemmas.Comparison
 import EbisimModel.Model.Device
 import Mathlib.Analysis.SpecialFunctions.Log.Base
 
@@ -286,4 +287,47 @@ theorem beam_edge_index (I : Input ℝ) (hre : 0 < I.r_e) (hrd : 2 * I.r_e < I.r
 example : (0 : ℝ) < 1e-4 ∧ 2 * (1e-4 : ℝ) < 5e-3 ∧ 6 ≤ 400 := by norm_num
 example : (0.2 : ℝ) / (Const.PI * (1e-4 : ℝ) ^ 2) * 1e-4 > 0 := by
   have := Const.PI_pos; positivity
+/-! ## the trap potential is a well (maximum principle) -/
+
+/-- the Boltzmann–Poisson problem `Device.get` hands to the e-beam solver for the trap potential -/
+noncomputable def deviceBP (I : Input ℝ) : BPIn ℝ :=
+  { variant := .ebeam, r := (get I).grid, ldu := (get I).ldu, b0 := [],
+    cden := beamDensity (get I).grid I.current I.r_e, e_kin := I.e_kin, sp := ionFree }
+
+/-- the stored trap potential is what the Newton iteration returns for exactly this problem -/
+theorem trap_potential_is_loop (I : Input ℝ) :
+    (get I).phi = (finish (loop (deviceBP I) 1e-3 500
+      (firstGuessEbeam (get I).grid I.current I.r_e I.e_kin ionFree) 0 none)).phi := rfl
+
+/-- **the beam potential never decreases outward and is nowhere positive** — for the exact solution
+of the discretised ion-free problem the iteration converges to (`trap_potential_well_partial`: the
+stored potential is the last Newton iterate, whose distance to the fixed point is what the stopping
+test bounds; zero at the wall holds for every iterate, C13 `loop_wall_zero`). Grid hypothesis
+`GridMP`: strictly increasing with `r[i+1] ≤ 3 r[i]` (`gridMP_of_indexed`). -/
+theorem trap_potential_well_partial (I : Input ℝ) (phi : List ℝ) (hg : GridMP (get I).grid)
+    (hcur : 0 ≤ I.current) (hphi : phi.length = (get I).grid.length)
+    (hfix : mulL 0 (get I).ldu phi = (step (deviceBP I) phi).b) (hw : phi.getLast? = some 0) :
+    List.Pairwise (· ≤ ·) phi ∧ ∀ v ∈ phi, v ≤ 0 := by
+  refine C13.beam_potential_monotone (deviceBP I) phi rfl ?_ hg rfl hphi ?_ ?_ hfix hw
+  · intro s hs
+    simp only [deviceBP, ionFree, List.mem_singleton] at hs
+    subst hs; simp
+  · simp [deviceBP, beamDensity]
+  · exact C13.beamDensity_nonpos _ _ _ hcur
+
+/-- consequently the radial trap depth `−min φ` is the depth on the axis -/
+theorem trap_depth_on_axis_partial (I : Input ℝ) (phi : List ℝ) (hg : GridMP (get I).grid)
+    (hcur : 0 ≤ I.current) (hphi : phi.length = (get I).grid.length)
+    (hfix : mulL 0 (get I).ldu phi = (step (deviceBP I) phi).b) (hw : phi.getLast? = some 0) :
+    ∀ x0 ∈ phi.head?, ∀ v ∈ phi, x0 ≤ v := by
+  intro x0 hx0 v hv
+  have hm := (trap_potential_well_partial I phi hg hcur hphi hfix hw).1
+  match phi, hx0 with
+  | y :: ys, hx0 =>
+    simp only [List.head?_cons, Option.mem_def, Option.some.injEq] at hx0
+    subst hx0
+    rcases List.mem_cons.mp hv with rfl | hv'
+    · exact le_rfl
+    · exact (List.pairwise_cons.mp hm).1 v hv'
+
 end C14
